@@ -2898,3 +2898,20 @@ package goatlang
 //@ func switchNud loop 0
 //@   invariant p != nil && t != nil && cases != nil
 //@   invariant#caseexpr calls("(*parser).Statement") == 0
+//@
+//@ func asStatement
+//@   property C07
+//@   modifies H$token
+//@   ensures#same result == tok
+//@   ensures#zero tok != nil && old(tok.Symbol) == "call" ==> tok.Tokens == old(tok.Tokens) && tok.Tokens[2].Text == "0"
+//@ func blankAtPos
+//@   property C07
+//@   trusted
+//@   allocates token
+//@ -- in the three-clause form (three expressions parsed: init, condition, post) init and post are
+//@ -- statements
+//@ func forNud
+//@   property C07
+//@   requires p != nil && t != nil
+//@   modifies *
+//@   ensures#initpost calls("(*parser).Expression") == 3 ==> calls("asStatement") == 2
